@@ -434,6 +434,7 @@ def _parse_schema(
     else:
         # Remaining valid schemas must be dict types
         schema_type = schema["type"]
+        enclosing_namespace = namespace
 
         parsed_schema = {
             key: value
@@ -519,6 +520,10 @@ def _parse_schema(
             named_schemas[fullname] = parsed_schema
 
             parsed_schema["name"] = fullname
+            if enclosing_namespace and "." not in fullname:
+                # a null-namespace type inside a namespace: keep that explicit
+                # so that the parsed schema parses to itself
+                parsed_schema["namespace"] = ""
             parsed_schema["symbols"] = schema["symbols"]
 
         elif schema_type == "fixed":
@@ -533,6 +538,8 @@ def _parse_schema(
             named_schemas[fullname] = parsed_schema
 
             parsed_schema["name"] = fullname
+            if enclosing_namespace and "." not in fullname:
+                parsed_schema["namespace"] = ""
             parsed_schema["size"] = schema["size"]
 
         elif schema_type == "record" or schema_type == "error":
@@ -561,6 +568,8 @@ def _parse_schema(
                 )
 
             parsed_schema["name"] = fullname
+            if enclosing_namespace and "." not in fullname:
+                parsed_schema["namespace"] = ""
             parsed_schema["fields"] = fields
 
             # Hint that we have parsed the record
